@@ -133,8 +133,12 @@ def sweeps(tier):
              _sweep_chunk)]
 
 TECHNIQUE = ("property-based testing (Hypothesis scenario generator, virtual-time asyncio "
-             "loop, trace oracle over the global event order) + complete enumeration of all "
-             "4-node DAGs x durations x windows in the thorough tier")
+             "loop, trace oracle over the global event order: every job entry is compared with "
+             "the exits of its requirements, and with the bodies still executing inside a "
+             "required nested scheduler) + enumerated family of nested requirements whose job "
+             "raises (every exception class, message or none, verbose, critical, window) + "
+             "complete enumeration of all 4-node DAGs x durations x windows in the thorough "
+             "tier")
 LEVEL_TEXT = ("generated search: every generated run is observed event by event and each job "
               "entry is compared with the exits of all its requirements; no counter-example "
               "within the bounds is evidence, not proof")
